@@ -35,6 +35,7 @@ def run(chk: Check, drv: Driver):
                 chk.count("status_" + pr.status)
                 if pr.status == "ok":
                     prepared.append(pr)
+            kruns.compile_corr(chk, drv, prepared, cap=cap, limit=(120 if quick else None))
             items = []
             for pr in prepared:
                 for _ in range(2 if quick else 5):
